@@ -199,6 +199,8 @@ def one_pop(phi, xx, T, nu=1, gamma=0, h=0.5, theta0=1.0, initial_t=0,
         deme_ids (list[str]): sequence of strings representing the names of demes
     """
     phi = phi.copy()
+    # The C integration routines read xx through its data pointer.
+    xx = numpy.ascontiguousarray(xx)
 
     # For a one population integration, freezing means just not integrating.
     if frozen:
@@ -303,6 +305,8 @@ def two_pops(phi, xx, T, nu1=1, nu2=1, m12=0, m21=0, gamma1=0, gamma2=0,
         deme_ids (list[str]): sequence of strings representing the names of demes
     """
     phi = phi.copy()
+    # The C integration routines read xx through its data pointer.
+    xx = numpy.ascontiguousarray(xx)
 
     if T - initial_t == 0:
         return phi
@@ -447,6 +451,8 @@ def three_pops(phi, xx, T, nu1=1, nu2=1, nu3=1,
         deme_ids (list[str]): sequence of strings representing the names of demes
     """
     phi = phi.copy()
+    # The C integration routines read xx through its data pointer.
+    xx = numpy.ascontiguousarray(xx)
 
     if T - initial_t == 0:
         return phi
@@ -632,6 +638,10 @@ def four_pops(phi, xx, T, nu1=1, nu2=1, nu3=1, nu4=1,
                         population.
         deme_ids (list[str]): sequence of strings representing the names of demes
     """
+    phi = phi.copy()
+    # The C integration routines read xx through its data pointer.
+    xx = numpy.ascontiguousarray(xx)
+
     if T - initial_t == 0:
         return phi
     elif T - initial_t < 0:
@@ -829,6 +839,10 @@ def five_pops(phi, xx, T, nu1=1, nu2=1, nu3=1, nu4=1, nu5=1,
                         population.
         deme_ids (list[str])): sequence of strings representing the names of demes
     """
+    phi = phi.copy()
+    # The C integration routines read xx through its data pointer.
+    xx = numpy.ascontiguousarray(xx)
+
     if T - initial_t == 0:
         return phi
     elif T - initial_t < 0:
